@@ -336,6 +336,47 @@ theorem c02_call_reaches_method (K : Consts) (hK : ConstsOk K) (env : Env) (root
     simp only [wireRequest, hparse, ofUrlRes, hreq, hurl.path, hurl.rawQuery, hsent]
   · rw [hsees, afterRouting, decodeInvocation_client K env r texts pairs (fun e he => (hpairs e he).1), hcodec]
 
+/-- **A `get` with parameters, end to end with no codec hypothesis left.** For every resource shape,
+key types and params record of every schema: a `get` made through the generated client — keys in
+the path, the params record in the query — reaches exactly its method, and the resource sees the
+caller's keys and parameters (normalised: NaN canonical, own defaults filled in). `hcodec` of
+`c02_call_reaches_method` is discharged by `c02_keys_read_back` and `c02_params_read_back`; what is
+left are the cleanliness facts of the writers' output (C01/C03), `UrlLaw` (C15) and C14's boundary
+hypotheses. -/
+theorem c02_get_reaches_method_with_its_arguments (F : Codec.FloatLaws) (env : Env) (hS : Codec.schemaOKb env = true)
+    (roots : List Routing.Node) (cfg : Cfg) (r : ResSpec) (c : Call) (node : Routing.Node)
+    (hnode : nodeFor roots r.segs = some node)
+    (hget : r.method.kind = .get) (n : TName) (hparams : r.method.params = some n)
+    (incs : List TName) (own : List Field) (hfind : env.find n = some (.record incs own))
+    (fs : List (Bytes × Value)) (hcp : c.params = some (.record fs)) (hcb : c.body = .none)
+    (hvk : ∀ k ∈ c.keys, Codec.ValOK k) (hvp : Codec.ValOK (.record fs))
+    (texts : List Bytes) (ht : keyTexts constsV2 env (keyTys r.method.onEntity r.segs) c.keys = some texts)
+    (pairs : List (Bytes × Bytes)) (hp : paramPairs constsV2 env n (.record fs) = some pairs)
+    (hnames : ∀ s ∈ r.segs, ∀ ch ∈ s.name, ch ≠ 47)
+    (htexts : ∀ t ∈ texts, (∀ ch ∈ t, ch ≠ 47) ∧ Routing.validateRor2Input (strOf t) = true)
+    (hpairs : ∀ e ∈ pairs, PairClean e ∧ Routing.validateRor2Input (strOf e.2) = true)
+    (hkind : KindOk constsV2 r node (stringQuery (joinQuery pairs)))
+    (hpfx : (strOf cfg.pfx).toList.getLast? ≠ some '/')
+    (u : Url.URL) (hurl : UrlLaw cfg ((r.segs.head?.map (·.name)).getD [])
+      (joinPath (pathSegsB r.method.onEntity r.segs texts)) (some (joinQuery pairs)) u)
+    (hb : Tunnel.TokenBoundary cfg.boundary)
+    (hfresh : TunnelSpec.BoundaryFresh cfg.boundary (joinQuery pairs) []) :
+    ∃ a sent, clientEncode constsV2 env r c = some a ∧ wireRequest constsV2 cfg a = .ok sent ∧
+      serverSees constsV2 env roots cfg r sent =
+        .invoked ⟨List.zipWith (Codec.norm env encFuel) (keyTys r.method.onEntity r.segs) c.keys,
+          some (Codec.norm env (encFuel + 1) (.ref n) (.record fs)), .none⟩ := by
+  have hqp : queryPairs constsV2 env r c = some (some pairs) := by
+    simp [queryPairs, hget, hparams, hcp, hp, isBatchKeyed]
+  have hbd : bodyDoc constsV2 env r c = some Option.none := by
+    simp [bodyDoc, hget, hcb]
+  have hkeys := c02_keys_read_back F env hS _ c.keys texts hvk ht
+  have hpar := c02_params_read_back F env hS n incs own hfind fs hvp pairs hp
+  refine c02_call_reaches_method constsV2 c02_constants_ok_v2 env roots cfg r c node hnode texts ht (some pairs) hqp
+    Option.none hbd hnames htexts (by simpa using hpairs) (by simpa using hkind) hpfx u (by simpa using hurl) hb
+    (by simpa using hfresh) (by simp) _ ?_
+  simp only [Option.getD_some, hkeys, Dec.bind, decodeQuery, hget, hparams, hpar, isBatchKeyed,
+    Option.map_none, Option.getD_none, decodeBody, List.isEmpty_nil, ↓reduceIte, Bool.false_eq_true]
+
 /-- **Whether query tunnelling is triggered makes no difference.** Two configurations that differ
 only in the tunnelling threshold: the server sees the same thing (both are what the closure makes of
 the untunnelled request — C14 applied on both sides). -/
